@@ -185,18 +185,18 @@ theorem C11_pinned_member_exact (vals : List EnumVal) (v0 : EnumVal) (rest : Lis
     ev.value = .str s := by
   subst hv
   simp only [memberForValue, isNilVal, Bool.false_eq_true, if_false, hk, beq_self_eq_true, if_true] at h
-  cases hf : (v0 :: rest).find? (fun e => valScalarEq e.value (.str s)) with
+  cases hf : (v0 :: rest).find? (fun e => valDeepEq e.value (.str s)) with
   | some e =>
     rw [hf] at h
     simp only [Option.getD_some, DRes.ok.injEq] at h
     subst h
     have := List.find?_some hf
-    cases hval : e.value <;> simp_all [valScalarEq]
+    cases hval : e.value <;> simp_all [valDeepEq]
   | none =>
     exfalso
     obtain ⟨m, hm, hmv⟩ := hmem
     have := List.find?_eq_none.1 hf m hm
-    simp [hmv, valScalarEq] at this
+    simp [hmv, valDeepEq] at this
 
 namespace C11ex
 /-- time units: minute "m" and month "M" differ only by case; `EveryMonths.unit` is pinned to the later one -/
